@@ -77,6 +77,7 @@ type Case struct {
 	Srcs    []string `json:"srcs"`
 	Targets []string `json:"targets"`
 	Loose   bool     `json:"loose,omitempty"` // compare the verdict only (parse errors)
+	Always  bool     `json:"always,omitempty"` // Config.AlwaysRebuild: the cache never short-cuts
 	Obs     *Obs     `json:"obs,omitempty"`
 }
 
@@ -261,7 +262,7 @@ func runCase(c *Case, timeout time.Duration) {
 	done := make(chan result, 1)
 	go func() {
 		var r result
-		b, err := caco3.NewBuilder(root, &caco3.Config{Root: root})
+		b, err := caco3.NewBuilder(root, &caco3.Config{Root: root, AlwaysRebuild: c.Always})
 		if err != nil {
 			r.errs = []Err{{K: "other", N: "new builder: " + err.Error()}}
 			done <- r
